@@ -17,6 +17,7 @@ EXPLANATION = (
     "dominates the combination (the quadtree lookup returns matches only); D4 space-magnitude arrays are created "
     "(cells, magnitude bins) and indexed (cell, magnitude) everywhere; D5 space-magnitude gridding raises on a "
     "magnitude below the first edge, spatial lookups reject the -1 of bin1d_vec and masked cells (shared with C01). "
+    "D6 gridding is a pure function of the current events, region and bins: nothing is stored on the catalog, an explicit mag_bins argument has precedence and stays local to the call (D6.local: stores into self.region only under `mag_bins is None`), and locating points writes nothing that region instances share (D6.lookup: no class-level memo). "
     "NOT decided: the marginal identities and the histogram/range-filter equality as numeric facts.")
 CLAUSES = {'D1': 'magnitude sentinel never indexes', 'D2': 'duplicate-safe accumulation', 'D3': 'aligned pairing',
            'D4': 'axis roles', 'D5': 'rejection of out-of-region / below-range events'}
